@@ -24,15 +24,17 @@ SC_BUILTIN = {"int": "int", "str": "str", "float": "float", "bool": "bool", "any
 SC_CLS = {"int": "Integer", "str": "String", "float": "Float", "bool": "Boolean", "any": "Anything"}
 SC_DECL = {"int": {"k": "integer"}, "str": {"k": "string"}, "float": {"k": "float"}, "bool": {"k": "boolean"},
            "any": {"k": "anything"}}
-CO_BUILTIN = {"list": "list", "set": "set", "frozenset": "frozenset", "deque": "deque"}
-CO_TYPING = {"list": "List", "set": "typing.Set", "frozenset": "FrozenSet", "deque": "typing.Deque"}
-CO_CLS = {"list": "Array", "set": "Set", "frozenset": "ImmutableSet", "deque": "Deque"}
+# `tuple` has parametrised forms only (bare `tuple` / `Tuple` raise TypeError: Tuple requires items)
+CO_BUILTIN = {"list": "list", "set": "set", "frozenset": "frozenset", "deque": "deque", "tuple": "tuple"}
+CO_TYPING = {"list": "List", "set": "typing.Set", "frozenset": "FrozenSet", "deque": "typing.Deque",
+             "tuple": "typing.Tuple"}
+CO_CLS = {"list": "Array", "set": "Set", "frozenset": "ImmutableSet", "deque": "Deque", "tuple": "Tuple"}
 
 PRELUDE = """import typing
 from collections import deque
 from typing import Optional, Union, List, Dict, FrozenSet, Any
 from typedpy import (Structure, Integer, String, Float, Boolean, Anything, Number, Enum, Array, Set, ImmutableSet,
-                     Deque, Map, AnyOf, PositiveInt, NegativeInt, NonPositiveInt, NonNegativeInt, PositiveFloat,
+                     Deque, Tuple, Map, AnyOf, PositiveInt, NegativeInt, NonPositiveInt, NonNegativeInt, PositiveFloat,
                      NegativeFloat, NonPositiveFloat, NonNegativeFloat, Positive, Negative, NonPositive, NonNegative)
 """
 
@@ -63,6 +65,8 @@ def meaning_decl(m):
 
 
 def _coll_decl(c, item):
+    if c == "tuple":     # documented: Tuple[X] = a tuple of any number of X
+        return {"k": "tupleOf", "item": item}
     if c in ("list", "deque"):
         d = {"k": "seqAny" if item is None else "seqOf"}
         if c == "deque":
@@ -115,7 +119,7 @@ def gen_meaning(rng, dg, depth, allow_opt=True):
             return {"m": "bare", "c": rng.choice(COLLS)}
         return {"m": "bareDict"}
     if r < 0.55:
-        c = rng.choice(["list", "list", "set", "frozenset", "deque"])
+        c = rng.choice(["list", "list", "set", "frozenset", "deque", "tuple"])
         x = gen_hashable(rng, dg) if c in ("set", "frozenset") else gen_meaning(rng, dg, depth - 1)
         return {"m": "coll", "c": c, "x": x}
     if r < 0.72:
@@ -705,8 +709,38 @@ def directed_cases(rng, tier):
     return cases
 
 
+def single_arg_cases(rng, tier):
+    """Directed stream: every single-argument container form - `tuple[X]`, `typing.Tuple[X]`, `Tuple[X]`,
+    `Tuple(items=X)`, the same for list / set / frozenset / deque, and the four dict forms - with the argument X
+    written as a builtin, a Field class and a Field instance (forms x argument forms enumerated; the element
+    type is sampled)."""
+    dg = gen.DeclGen(rng, max_depth=1)
+    elems = [{"m": "scalar", "k": k} for k in ("int", "str", "float", "bool")]
+    cases = []
+    colls = ["tuple", "list", "set", "frozenset", "deque"]
+    if tier == "quick":
+        colls = ["tuple"] + rng.sample(colls[1:], 2)
+    for c in colls:
+        for t in rng.sample(elems, 1 if tier == "quick" else 2):
+            xs = [{"s": f, "k": t["k"]} for f in ("builtin", "fcls", "finst")]
+            tys = [{"s": form, "c": c, "x": x} for form in ("pep585", "typingG", "sub", "call") for x in xs]
+            cases.append(gen_case(rng, tier, len(cases), meanings=[{"m": "coll", "c": c, "x": t}],
+                                  extra_tys=[tys], cap=60))
+    if tier != "quick" or rng.random() < 0.5:
+        lit = {"m": "lit", "d": gen_lit(rng, dg)}
+        c = rng.choice(["tuple", "list"])
+        tys = [{"s": form, "c": c, "x": spell(lit, rng, "native")} for form in ("pep585", "typingG", "sub", "call")]
+        cases.append(gen_case(rng, tier, len(cases), meanings=[{"m": "coll", "c": c, "x": lit}], extra_tys=[tys], cap=60))
+    k, v = rng.choice(elems[:2]), rng.choice(elems)
+    ks = [{"s": f, "k": k["k"]} for f in ("builtin", "fcls", "finst")]
+    vs = [{"s": f, "k": v["k"]} for f in ("builtin", "fcls", "finst")]
+    tys = [{"s": form, "x": x, "y": y} for form in ("dict585", "dictTyping", "mapSub", "mapCall") for x in ks for y in vs]
+    cases.append(gen_case(rng, tier, len(cases), meanings=[{"m": "dict", "x": k, "y": v}], extra_tys=[tys], cap=80))
+    return cases
+
+
 def gen_cases(rng, tier, n):
-    return directed_cases(rng, tier) + [gen_case(rng, tier, i) for i in range(n)]
+    return directed_cases(rng, tier) + single_arg_cases(rng, tier) + [gen_case(rng, tier, i) for i in range(n)]
 
 
 # ------------------------------------------------------------------ real code
@@ -882,8 +916,6 @@ def compare_variants(a, b):
             return "required-differs", f"_required {a['cls']['required']} vs {b['cls']['required']}"
         if a["cls"]["defaults"] != b["cls"]["defaults"]:
             return "default-differs", f"defaults {a['cls']['defaults']} vs {b['cls']['defaults']}"
-    elif ("undumpable" in a) != ("undumpable" in b):
-        return "field-kind-differs", f"{a.get('undumpable') or b.get('undumpable')}"
     for j, (x, y) in enumerate(zip(a.get("beh", []), b.get("beh", []))):
         if x != y:
             if ("ok" in x) != ("ok" in y):
@@ -895,6 +927,8 @@ def compare_variants(a, b):
             else:
                 ph = "serialization-differs"
             return ph, f"kwargs #{j}: {json.dumps(x)[:200]} vs {json.dumps(y)[:200]}"
+    if ("undumpable" in a) != ("undumpable" in b):      # same behaviour on the stream, but not the same kind of field
+        return "field-kind-differs", f"{a.get('undumpable') or b.get('undumpable')}"
     return None
 
 
